@@ -280,7 +280,7 @@ Proof.
 Qed.
 
 Lemma raw_post_trace : forall s j, trace (raw_post s j) = trace s.
-Proof. intros. unfold raw_post. destruct (if efd_raw s =? 0 then _ else _) as [k1 x]. reflexivity. Qed.
+Proof. intros. unfold raw_post. destruct (if raw_is_pipe s j then _ else _) as [k1 x]. reflexivity. Qed.
 
 (* ---------- events ---------- *)
 Lemma event_rx_on_ext_g : forall s, RExt P s (fst (event_rx_on s)).
